@@ -208,3 +208,16 @@ prop("C14", level="exploration", bounded=True,
      note="Exploration level. Known finding: multi-level flatten leaves a nested active range on flat tuple coordinates.",
      also=["Splitter"],
      trusted_base=[])
+
+prop("C18", level="proof", bounded=True,
+     technique="deductive: format.py functions against the statement's sums, with defined prefix-sum functions and a record-map model of the spec (pyvc, z3/cvc5)",
+     text="Proved for all tensors and specifications: _getFiberFootprint == header + (coordinate + payload bits) x (occupancy if compressed else shape); "
+          "getRank == rank header + the sum of that over rank.getFibers() (loop invariant over a defined prefix-sum function; with C02 the list is exactly "
+          "the live fibers of the depth); getTensor == root + the sum over all ranks of getRank; getRoot; getElem; and _checkFillSpec with its two field "
+          "helpers: every rank row ends up complete, present fields keep their values, missing ones default to 0 bits / 'C' / 'contiguous' (malformed "
+          "specs exit by assertion). The specification dictionary is modelled as a record map (one array per field keyed by the rank string, with "
+          "presence bits). Bounded only: getSubTree (a work-list over iterShape/iterOccupancy generators) and getFiber's point lookup, cross-checked "
+          "with everything else against a raw recursive walk for every C/U assignment and widths {0,1,3} on depth 1-3 tensors.",
+     note="Trusted: pyvc, z3/cvc5; Tensor.getRankIds and Fiber.getShape(all_ranks=False) abstracted by ghost fields (tier T); Fiber.__len__ proved for eager fibers.",
+     also=["Fiber.__len__"],
+     trusted_base=["Tensor.getRankIds ghost list (tier T)", "Fiber.getShape ghost shape (tier T)"])
